@@ -1,5 +1,20 @@
 import Ebv.Model.Eeprom
-/-! C17 — EEPROM contents and derived layouts are decoded exactly. -/
+/-! C17 — EEPROM contents and derived layouts are decoded exactly.
+
+All theorems are at full strength (no `_partial`): they quantify over every image / category list /
+record table / entry list, both read modes and every bus state (busy script, status bits, junk in
+the data register).
+
+* `read_one_exact`            `_eeprom_read_one(start)` = the 8 image bytes at `2*start`
+* `getData_spec`              the carry-over buffer invariant of `get_data`, any size
+* `read_identity_exact`       vendor/product/revision/serial = image words 8..15 (any image)
+* `read_eeprom_exact`, `read_eeprom_lookup`   result dict = the categories (later duplicates overwrite)
+* `read_eeprom_total`         on any (malformed) image the loop ends at a marker / the 0xff padding
+* `sm_exact`                  areas = last record of each kind, register address 0x800 + 8*i
+* `pdo_exact`, `pdo_rejects`, `aligned_iff`   the inner `parse`: `(sm, Σ previous bits / 8, bit | format)`
+                              for aligned tables, RuntimeError / KeyError for every other table
+* `pdo_eeprom_source_exact`, `pdo_sdo_source_exact`   the two entry sources yield the stored triples
+* `parse_pdos_eeprom_exact`, `parse_pdos_sdo_exact`, `apply_eeprom_exact`   the compositions -/
 namespace Ebv.C17
 open Ebv.Eeprom Ebv.Bytes Ebv.Consts
 
@@ -905,6 +920,10 @@ example : parseSM [0, 0x10, 0x80, 0, 0x26, 0, 1, 1, 0x80, 0x10, 0x80, 0, 0x22, 0
        pdo_in := some (0x1180, 6), pdo_in_addr := 0x818, pdo_out_addr := 0x810 }, true) := by decide
 
 example : (⟨0x1000, 0x80, 0x26, 0, 1, 1⟩ : SMEntry).ok := by decide
+-- the hypotheses of `apply_eeprom_exact` on `exCats`: category 41 holds two mailbox records
+example : dictGet (dictOfFrom [] (exCats.map fun c => (c.type, c.payload))) catSM =
+    some (encSMs [⟨0x1000, 0x80, 0x26, 0, 1, 1⟩, ⟨0x1080, 0x80, 0x22, 0, 1, 2⟩]) := by decide
+example : hasMailbox (smSpec [⟨0x1000, 0x80, 0x26, 0, 1, 1⟩, ⟨0x1080, 0x80, 0x22, 0, 1, 2⟩]) = true := by decide
 
 /-- the object dictionary of a terminal with one RxPDO (two entries) and an empty slot -/
 def exOd : OD := [((0x1c12, 0), [2]), ((0x1c12, 1), [0, 0]), ((0x1c12, 2), [0x00, 0x16]),
